@@ -110,6 +110,11 @@ pub fn position_programs() -> Vec<String> {
         "return EI(t):f<<typeof(@)>>(1)",
         "return EI<<typeof(@), number>>(1)",
         "EI(t):f<<{ typeof(@) }>> \"s\"\nreturn 1",
+        // an instantiated prefix AND an instantiated method in one call
+        "return t<<typeof(@)>>:f<<number>>(1)",
+        "return t<<number>>:f<<typeof(@)>>(1)",
+        "return EI(t<<number>>:f<<string>>(@))",
+        "t<<number>>:f<<string>> {@}\nreturn 1",
         "return EI{@}",
         "const c = @\nreturn c",
         "for i = 1, 2 do if i == 1 then continue end E1(@) end\nreturn 1",
